@@ -31,6 +31,7 @@ use crate::hll::estimator::HipEstimator;
 use crate::hll::get_slot;
 use crate::hll::get_value;
 use crate::hll::pack_coupon;
+use crate::hll::serialization::COMPACT_FLAG_MASK;
 use crate::hll::serialization::COUPON_SIZE_BYTES;
 use crate::hll::serialization::CUR_MODE_HLL;
 use crate::hll::serialization::HLL_PREAMBLE_SIZE;
@@ -315,6 +316,7 @@ impl Array4 {
         mut cursor: SketchSlice,
         cur_min: u8,
         lg_config_k: u8,
+        lg_aux_arr: u8,
         compact: bool,
         ooo: bool,
     ) -> Result<Self, Error> {
@@ -337,24 +339,35 @@ impl Array4 {
 
         // Read packed 4-bit byte array
         let mut data = vec![0u8; num_bytes];
-        if !compact {
-            cursor
-                .read_exact(&mut data)
-                .map_err(insufficient_data("data"))?;
-        } else {
-            cursor.advance(num_bytes as u64);
-        }
+        // The register array is present in both the compact and the updatable form of the
+        // image; the compact flag only selects the layout of the aux map below.
+        cursor
+            .read_exact(&mut data)
+            .map_err(insufficient_data("data"))?;
 
         // Read aux map if present
         let mut aux_map = None;
         if aux_count > 0 {
             let mut aux = AuxMap::new(lg_config_k);
-            for i in 0..aux_count {
+            // Compact form: exactly aux_count pairs. Updatable form (Java / C++): the whole
+            // aux hash table of 1 << lg_aux_arr ints, empty slots included. Images written by
+            // earlier versions of this crate carry a pair list without the compact flag; they
+            // are recognizable by lg_aux_arr == 0, which no updatable table can have.
+            let listed = compact || lg_aux_arr == 0;
+            let num_ints = if listed {
+                aux_count as usize
+            } else {
+                1usize << lg_aux_arr
+            };
+            for i in 0..num_ints {
                 let coupon = cursor.read_u32_le().map_err(|_| {
                     Error::insufficient_data(format!(
-                        "expected {aux_count} aux coupons, failed at index {i}",
+                        "expected {num_ints} aux ints, failed at index {i}",
                     ))
                 })?;
+                if coupon == 0 && !listed {
+                    continue;
+                }
                 let slot = get_slot(coupon) & ((1 << lg_config_k) - 1);
                 let value = get_value(coupon);
                 aux.insert(slot, value);
@@ -404,7 +417,8 @@ impl Array4 {
         bytes.write_u8(0); // unused for HLL mode
 
         // Write flags
-        let mut flags = 0u8;
+        // The aux map is written as a list of pairs, which is the compact form of the image.
+        let mut flags = COMPACT_FLAG_MASK;
         if self.estimator.is_out_of_order() {
             flags |= OUT_OF_ORDER_FLAG_MASK;
         }
